@@ -252,9 +252,10 @@ class RaggedArray:
             vlenincr, ilenincr = self._append(array, fdv, fdi, vlen)
             self._values._update_len(lenincrease=vlenincr)
             self._indices._update_len(lenincrease=ilenincr)
-            self._update_readmetxt()
-            self._update_arraydescr(len=len(self._indices),
-                                    size=self._values.size)
+        # arrays should be closed now, so that new lengths are seen
+        self._update_readmetxt()
+        self._update_arraydescr(len=len(self._indices),
+                                size=self._values.size)
 
     def copy(self, path, dtype=None, accessmode='r', overwrite=False):
         """Copy darr to a different path, potentially changing its dtype.
